@@ -818,6 +818,13 @@ def plan_c16(run_seed):
             if not cfg["anon"] and t.chance(0.25):
                 kind = t.weighted([("good", 4), ("missing", 1), ("noattr", 1), ("raises", 2)])
                 e["pulses"] = {"mod": "%s_%d" % (modbase, i), "relative": t.chance(0.6), "kind": kind, "j": t.randrange(2)}
+        if t.chance(0.12):
+            # unusual but lexically legal: a negative loop or subcircuit count
+            loops = [x for x in progast.all_statements(e["prog"]) if x["k"] in ("loop", "sub")]
+            if loops:
+                tgt = t.choice(loops)
+                tgt["count"] = -t.randint(1, 3)
+                e["exec"] = False
         if t.chance(0.08):
             e["prog"] = dict(e["prog"])
             e["prog"]["reg"] = None  # programs without a register
@@ -986,6 +993,21 @@ def allowed_for(S, op):
     return tuple(extra)
 
 
+def absolute_import_of_relative_module(S, text):
+    """The text imports, by absolute name, a scratch module that other texts of this run
+    import relatively and *successfully*.  A successful relative import leaves the module
+    in sys.modules under its bare name (that is what imports do), so the outcome of the
+    absolute import legitimately depends on the order - not demanded by the property.  A
+    module whose import fails (kind 'raises') is not waived: that is F12."""
+    import re
+
+    rel_ok = {e["pulses"]["mod"] for e in S.plan["texts"] if e.get("pulses") and e["pulses"]["relative"] and e["pulses"]["kind"] in ("good", "package")}
+    for m in re.finditer(r"from\s+([A-Za-z_][A-Za-z0-9_.]*)\s+usepulses", text):
+        if m.group(1).split(".")[0] in rel_ok:
+            return True
+    return False
+
+
 def materialise_c16(plan):
     """Resolve 'corrupt' operations into raw text entries (deterministic from the plan):
     -> (texts, ops) with only parse / env_import operations."""
@@ -1113,6 +1135,9 @@ def exec_c16(plan, role="main", order=None):
             check_type(S, j, op, o, text, allowed)
             d = S.outcome_digest(o)
             S.twin_ref[str(j)] = list(d)
+            if absolute_import_of_relative_module(S, text):
+                S.twin_waived = getattr(S, "twin_waived", []) + [str(j)]
+                S.probe("twin_waived_successful_relative_import_populates_sys_modules")
             S.log.append((j, op.get("via"), d))
             hist.append((op.get("via"), o["kind"], (op.get("fault") or {}).get("kind", ""), bool(op.get("nested")), bool(op.get("nested_pulse_top"))))
             e = plan2["texts"][op["text"]]
@@ -1124,6 +1149,7 @@ def exec_c16(plan, role="main", order=None):
                 S.probe("failed_call")
         rec = finish(S, plan, st, hist)
         rec["twin_ref"] = S.twin_ref
+        rec["twin_waived"] = getattr(S, "twin_waived", [])
         rec["ops_materialised"] = [{k: v for k, v in op.items()} for op in ops]
     finally:
         S.close()
@@ -1184,7 +1210,10 @@ def compare_twin(rec, twin):
     if not twin or rec.get("twin_ref") is None:
         return
     a, b = rec["twin_ref"], twin["twin_ref"]
+    waived = set(rec.get("twin_waived") or [])
     for j in sorted(a, key=int):
+        if j in waived:
+            continue
         if j in b and a[j] != b[j]:
             rec.setdefault("violations", []).append(
                 {
@@ -1273,6 +1302,15 @@ def exec_c10(plan):
             return finish(S, plan, st, hist)
         c0 = o0["value"]
         BUD = 5_000_000
+        e0 = plan["texts"][0]
+        strict, blocks_a = False, True
+        if e0.get("exec") and "prog" in e0:
+            try:
+                R0 = progast.resolve(e0["prog"], e0.get("ov") or {}, executable=True)
+                strict = True
+                blocks_a = bool(R0.features & {"register_macro_arg", "param_indexing"})
+            except progast.Invalid:
+                strict = False
 
         cur = [O]
 
@@ -1322,6 +1360,13 @@ def exec_c10(plan):
                 o = apply(tok, c)
                 label = "".join(done + [tok])
                 if o["kind"] == "JaqalError" or o["kind"] == "JaqalParseError":
+                    # on a valid executable program under a validated dictionary every pass
+                    # is applicable in every order, except fill_in_map before macro
+                    # expansion when macros take registers or index with parameters
+                    # (expansion that preserves the definitions leaves them in the circuit)
+                    a_excused = tok == "A" and blocks_a and "M" not in done
+                    if strict and cur[0] == (e0.get("ov") or {}) and not a_excused:
+                        S.viol.add("C10", "pass_applicable_on_valid_program", o["kind"], o.get("where", ""), "sequence %s on a valid program: %s" % (label, o.get("exc")), op=si)
                     S.probe("sequence_not_applicable")
                     ok = False
                     break
